@@ -10,8 +10,12 @@
 (*   or absolute target (the generator uses five candidate paths and a     *)
 (*   list of targets, the judge accepts any tree: random larger ones too); *)
 (*   optionally a read-only collection mount (outside: /mnt, or beneath    *)
-(*   the output path: /out/m) whose manifest is MountManifest, and a       *)
-(*   secret mount (outside: /secret, or beneath: /out/s).                  *)
+(*   the output path: /out/m) showing the subtree sc.mpath ("" or one      *)
+(*   directory: arvados.Mount.Path) of the collection whose manifest is    *)
+(*   sc.mount (one of MountFamily: among them directories whose names are  *)
+(*   prefixes of one another), and a secret mount at sc.sec (outside:      *)
+(*   /sec; beneath: /out/s; or deeper: /out/a/s, reachable through links   *)
+(*   to its parent directory).                                             *)
 (* Names are byte sequences, container paths are sequences of names (the   *)
 (* root is <<>>), collection paths are the byte sequences of Manifest.tla. *)
 (*                                                                         *)
@@ -55,13 +59,31 @@ OUT == <<111, 117, 116>>   MNT == <<109, 110, 116>>   M == <<109>>   S == <<115>
 K == <<107>>  ETC == <<101, 116, 99>>  F == <<102>>  D == <<100>>  H == <<104>>  G == <<103>>
 UP == <<DOT, DOT>>
 
-(* The mounted collection: ./f = 3 bytes of block 103 ++ 1 byte of block   *)
-(* 202; ./g empty; ./d/h = the last byte of 202 and block 103 again.       *)
-MountManifest ==
-    << [name |-> <<DOT>>, blocks |-> <<103, 0, 202>>,
-        toks |-> << [pos |-> 0, len |-> 4, name |-> F], [pos |-> 1, len |-> 0, name |-> G] >>],
-       [name |-> <<DOT, SL>> \o D, blocks |-> <<202, 103>>,
-        toks |-> << [pos |-> 1, len |-> 4, name |-> H] >>] >>
+(* The mounted collections.  M1: ./f = 3 bytes of block 103 ++ 1 byte of   *)
+(* block 202; ./g empty; ./d/h = the last byte of 202 and block 103 again. *)
+(* M2: three directories d, d1, d1/e - the name of the first is a prefix   *)
+(* of the name of the second (Extract("./d") must not take ./d1 along).    *)
+D1 == D \o <<49>>   E == <<101>>   J == <<106>>
+MountFamily ==
+    << << [name |-> <<DOT>>, blocks |-> <<103, 0, 202>>,
+           toks |-> << [pos |-> 0, len |-> 4, name |-> F], [pos |-> 1, len |-> 0, name |-> G] >>],
+          [name |-> <<DOT, SL>> \o D, blocks |-> <<202, 103>>,
+           toks |-> << [pos |-> 1, len |-> 4, name |-> H] >>] >>,
+       << [name |-> <<DOT, SL>> \o D, blocks |-> <<103>>,
+           toks |-> << [pos |-> 0, len |-> 3, name |-> H] >>],
+          [name |-> <<DOT, SL>> \o D1, blocks |-> <<202>>,
+           toks |-> << [pos |-> 0, len |-> 2, name |-> K] >>],
+          [name |-> <<DOT, SL>> \o D1 \o <<SL>> \o E, blocks |-> <<202, 103>>,
+           toks |-> << [pos |-> 1, len |-> 3, name |-> J] >>] >> >>
+(* mount configurations [mode, fam, mpath] and secret roots to choose from *)
+MountCfgs == << [mode |-> "none",    fam |-> 1, mpath |-> <<>>],       \* 1
+                [mode |-> "outside", fam |-> 1, mpath |-> <<>>],       \* 2
+                [mode |-> "beneath", fam |-> 1, mpath |-> <<>>],       \* 3
+                [mode |-> "outside", fam |-> 2, mpath |-> <<>>],       \* 4
+                [mode |-> "outside", fam |-> 2, mpath |-> <<D>>],      \* 5  /mnt shows ./d only
+                [mode |-> "beneath", fam |-> 2, mpath |-> <<D>>],      \* 6  /out/m shows ./d only
+                [mode |-> "beneath", fam |-> 2, mpath |-> <<>>] >>     \* 7
+SecretRoots == << <<>>, <<SECRET>>, <<OUT, S>>, <<OUT, A, S>> >>        \* none, outside, beneath, deeper (below /out/a)
 
 (* candidate paths below /out, and the content id of the file at each      *)
 Cands == {<<A>>, <<B>>, <<A, X>>, <<A, Y>>, <<B, X>>}
@@ -84,30 +106,39 @@ Targets == << [abs |-> FALSE, comps |-> <<X>>],              \* 1  sibling x (se
               [abs |-> TRUE,  comps |-> <<SECRET, K>>],      \* 13 into a secret mount
               [abs |-> TRUE,  comps |-> <<OUT, S>>],         \* 14 the secret mounted beneath
               [abs |-> TRUE,  comps |-> <<ETC, K>>],         \* 15 outside every mount
-              [abs |-> FALSE, comps |-> <<UP, UP, ETC>>] >>  \* 16 ../../etc: escapes upwards
+              [abs |-> FALSE, comps |-> <<UP, UP, ETC>>],    \* 16 ../../etc: escapes upwards
+              [abs |-> TRUE,  comps |-> <<MNT, D1>>],        \* 17 the directory whose name extends d's
+              [abs |-> TRUE,  comps |-> <<OUT, M>>],         \* 18 the mount point beneath
+              [abs |-> TRUE,  comps |-> <<OUT, A, S>>],      \* 19 the deeper secret itself
+              [abs |-> TRUE,  comps |-> <<MNT, H>>] >>       \* 20 a file of ./d when only ./d is mounted
 
 CONSTANTS TargetIds,      \* subset of DOMAIN Targets used by this configuration
-          MountModes,     \* subset of {"none", "outside", "beneath"}
-          SecretModes     \* subset of {"none", "outside", "beneath"}
+          MountCfgIds,    \* subset of DOMAIN MountCfgs
+          SecretIds       \* subset of DOMAIN SecretRoots
 
-VARIABLE sc               \* [tree : paths -> node, mnt, sec, done];  node = [k, c, abs, tg]
+VARIABLE sc               \* [tree : paths -> node, mnt, mpath, mount, sec, done];  node = [k, c, abs, tg]
 vars == <<sc>>                \*   k kind, c content id of a file, abs/tg target of a link (tg: components, UP = "..")
 
+SecretBelowOut == sc.sec # <<>> /\ Head(sc.sec) = OUT /\ Len(sc.sec) > 1
+ParentIsDir(p) == LET q == SubSeq(p, 1, Len(p) - 1) IN q \in DOMAIN sc.tree /\ sc.tree[q].k = "dir"
 Mk(k, c, abs, tg) == [k |-> k, c |-> c, abs |-> abs, tg |-> tg]
 None    == Mk("none", 0, FALSE, <<>>)
 DirNode == Mk("dir", 0, FALSE, <<>>)
 Node(p) == IF p = <<>> THEN DirNode                                                \* the output directory itself
            ELSE IF p \in DOMAIN sc.tree THEN sc.tree[p]
            ELSE IF p = <<M>> /\ sc.mnt = "beneath" THEN DirNode                    \* mount point
-           ELSE IF p = <<S>> /\ sc.sec = "beneath" THEN Mk("file", 0, FALSE, <<>>) \* bind-mounted secret file
+           ELSE IF SecretBelowOut /\ p = Tail(sc.sec) /\ (Len(p) = 1 \/ ParentIsDir(p))
+                THEN Mk("file", 0, FALSE, <<>>)                                    \* bind-mounted secret file
            ELSE None
-AllHost == DOMAIN sc.tree \cup {<<M>>, <<S>>}
+AllHost == DOMAIN sc.tree \cup {<<M>>} \cup (IF SecretBelowOut THEN {Tail(sc.sec)} ELSE {})
 LinkTarget(n) == [abs |-> n.abs, comps |-> n.tg]
 Parent(p) == SubSeq(p, 1, Len(p) - 1)
 Children(p) == {q \in AllHost : Len(q) = Len(p) + 1 /\ Parent(q) = p /\ Node(q).k # "none"}
 
 MountRoot  == IF sc.mnt = "outside" THEN <<MNT>> ELSE IF sc.mnt = "beneath" THEN <<OUT, M>> ELSE <<>>
-SecretRoot == IF sc.sec = "outside" THEN <<SECRET>> ELSE IF sc.sec = "beneath" THEN <<OUT, S>> ELSE <<>>
+SecretRoot == sc.sec
+MountManifest == sc.mount
+MountPath == sc.mpath                                   \* arvados.Mount.Path: the subtree of the collection that is mounted
 
 RECURSIVE Clean(_, _)
 Clean(comps, acc) ==                                         \* filepath.Join / path.Clean on components
@@ -132,7 +163,8 @@ Where(path) ==
         rootLen == IF inMnt THEN Len(MountRoot) ELSE IF inOut THEN 1 ELSE 0        \* innermost mount containing path
     IN IF inSec /\ Len(SecretRoot) > rootLen THEN [w |-> "secret", p |-> <<>>]
        ELSE IF rootLen = 0 THEN [w |-> "none", p |-> <<>>]
-       ELSE IF inMnt /\ rootLen = Len(MountRoot) THEN [w |-> "mnt", p |-> SubSeq(path, rootLen + 1, Len(path))]
+       ELSE IF inMnt /\ rootLen = Len(MountRoot)                      \* srcRelPath = Join(".", srcMount.Path, src[len(srcRoot):])
+            THEN [w |-> "mnt", p |-> MountPath \o SubSeq(path, rootLen + 1, Len(path))]
        ELSE [w |-> "out", p |-> SubSeq(path, 2, Len(path))]
 
 (* manifest.Extract semantics (doc comment of Extract) on the mount:       *)
@@ -164,7 +196,7 @@ Den(dest, p, seen) ==
          [] n.k = "dir"  ->
               LET kids == {q \in Children(p) : Where(<<OUT>> \o q).w = "out"}       \* not mount points, not secrets
                   below == IF sc.mnt = "beneath" /\ p = <<>>                          \* the collection mounted beneath
-                           THEN {OK(MountEntries(dest \o <<M>>, <<>>))} ELSE {}
+                           THEN {OK(MountEntries(dest \o <<M>>, MountPath))} ELSE {}
               IN Merge({OK(IF dest = <<>> THEN {} ELSE
                               {[dst |-> CollPath(dest), kind |-> IF Children(p) = {} THEN "emptydir" ELSE "dir", src |-> CollPath(p)]})}
                        \cup {Den(dest \o <<q[Len(q)]>>, q, seen) : q \in kids} \cup below)
@@ -227,13 +259,15 @@ TargetsPlain(s) ==
         LET tp == TargetPath(<<OUT>> \o p, LinkTarget(s.tree[p]))
         IN /\ \A i \in 2 .. Len(tp) - 1 :
                  LET q == SubSeq(tp, 2, i) IN tp[1] = OUT /\ q \in DOMAIN s.tree => s.tree[q].k # "link"
+           /\ Where(tp).w = "mnt" => MountHas(Where(tp).p)
 LeafChoices(p) == {None, Mk("file", ContentOf(p), FALSE, <<>>)}
 Below(n, choices) == IF n.k = "dir" THEN choices ELSE {None}
 (* Two steps, so that TLC's workers share the enumeration: Init chooses the *)
 (* mounts and the top-level entries, Fill chooses what is below them.      *)
-Init == \E na \in NodeChoices(<<A>>), nb \in NodeChoices(<<B>>) : \E mo \in MountModes : \E se \in SecretModes :
+Init == \E na \in NodeChoices(<<A>>), nb \in NodeChoices(<<B>>) : \E mc \in MountCfgIds : \E se \in SecretIds :
           sc = [tree |-> [p \in Cands |-> IF p = <<A>> THEN na ELSE IF p = <<B>> THEN nb ELSE None],
-                mnt |-> mo, sec |-> se, done |-> FALSE]
+                mnt |-> MountCfgs[mc].mode, mpath |-> MountCfgs[mc].mpath, mount |-> MountFamily[MountCfgs[mc].fam],
+                sec |-> SecretRoots[se], done |-> FALSE]
 Fill == /\ ~sc.done
         /\ \E nax \in Below(sc.tree[<<A>>], NodeChoices(<<A, X>>)) : \E nay \in Below(sc.tree[<<A>>], LeafChoices(<<A, Y>>)) :
            \E nbx \in Below(sc.tree[<<B>>], NodeChoices(<<B, X>>)) :
@@ -288,7 +322,7 @@ CandSeq == << <<A>>, <<B>>, <<A, X>>, <<A, Y>>, <<B, X>> >>            \* parent
 Emit == sc.done => Serialize(<<[nodes |-> [i \in DOMAIN CandSeq |->
                                    [path |-> CandSeq[i], k |-> sc.tree[CandSeq[i]].k, c |-> sc.tree[CandSeq[i]].c,
                                     abs |-> sc.tree[CandSeq[i]].abs, tg |-> sc.tree[CandSeq[i]].tg]],
-                     mnt |-> sc.mnt, sec |-> sc.sec, mount |-> MountManifest, experr |-> Expected.err]>>,
+                     mnt |-> sc.mnt, mpath |-> sc.mpath, sec |-> sc.sec, mount |-> sc.mount, experr |-> Expected.err]>>,
                   IOEnv.VERIF_OUT,
                   [format |-> "NDJSON", charset |-> "UTF-8", openOptions |-> <<"WRITE", "CREATE", "APPEND">>])
 =============================================================================
